@@ -18,7 +18,6 @@ import (
 	"strconv"
 	"strings"
 
-	"github.com/klauspost/compress/zstd"
 	"github.com/splunk/stef/go/pkg"
 	"github.com/splunk/stef/go/pkg/schema"
 )
@@ -642,49 +641,32 @@ func Frames(stream []byte) (compr int, frames []FrameInfo, err error) {
 		return 0, nil, err
 	}
 	compr = int(hdr[1] & 3)
-	var dec *zstd.Decoder
-	var pending bytes.Buffer
-	first := true
-	for br.Len() > 0 {
-		fl, _ := br.ReadByte()
-		usize, err := readUvarint(br)
+	// the library's own frame decoder (zstd state carried across frames exactly as the reader does)
+	var fd pkg.FrameDecoder
+	src := bufio.NewReader(br)
+	if err := fd.Init(src, pkg.Compression(compr)); err != nil {
+		return compr, nil, err
+	}
+	for {
+		fl, err := fd.Next()
 		if err != nil {
+			if err == io.EOF {
+				return compr, frames, nil
+			}
 			return compr, frames, err
 		}
-		csize := usize
-		if compr != 0 {
-			csize, err = readUvarint(br)
+		usize := fd.RemainingSize()
+		content := make([]byte, 0, usize)
+		for fd.RemainingSize() > 0 {
+			buf := make([]byte, fd.RemainingSize())
+			n, err := fd.Read(buf)
+			content = append(content, buf[:n]...)
 			if err != nil {
-				return compr, frames, err
-			}
-		}
-		body := make([]byte, csize)
-		if _, err := io.ReadFull(br, body); err != nil {
-			return compr, frames, err
-		}
-		content := body
-		if compr != 0 {
-			if first || fl&2 != 0 {
-				pending.Reset()
-				if dec == nil {
-					dec, err = zstd.NewReader(&pending, zstd.WithDecoderConcurrency(1))
-					if err != nil {
-						return compr, frames, err
-					}
-				} else if err := dec.Reset(&pending); err != nil {
-					return compr, frames, err
-				}
-				first = false
-			}
-			pending.Write(body)
-			content = make([]byte, usize)
-			if _, err := io.ReadFull(dec, content); err != nil {
 				return compr, frames, err
 			}
 		}
 		frames = append(frames, FrameInfo{Flags: int(fl), USize: usize, Content: hex.EncodeToString(content)})
 	}
-	return compr, frames, nil
 }
 
 func readUvarint(r io.ByteReader) (uint64, error) {
